@@ -131,25 +131,21 @@ def r2_diagnostics(ctx, prog, cfg):
             kinds_want = sorted(x[1] for x in want if x[0] == "warn")
             key = "missing" if kinds_got != kinds_want and "MissingKey" in (kinds_want + (kinds_got if isinstance(kinds_got, list) else [])) and (not isinstance(kinds_got, list) or kinds_got.count("MissingKey") != kinds_want.count("MissingKey")) else ("surplus" if isinstance(kinds_got, list) and kinds_got.count("SurplusKey") != kinds_want.count("SurplusKey") else "merge")
             r.viol("R2:merge#%s:%s" % (key, label.replace(" ", "_")), "with %s Locale::merge reports %s and does %s; expected warnings %s and %s" % (label, kinds_got, [x for x in localemerge.describe(log) if x[0] != "warn"], kinds_want, [x for x in localemerge.describe(want) if x[0] != "warn"]), file=b.file, line=b.line)
-    # --- Locale::merge is never applied to the default locale
-    cl = prog.body("parse_locales::check_locales_inner")
-    if cl is None:
+    # --- which locales are merged, and as what: abstract evaluation of check_locales_inner (rules/checklocales.py) on
+    # [en (default), fr-CA (inherits fr), fr, de] in every order of the last three
+    from rules import checklocales, absint
+    rows2 = checklocales.table(ctx)
+    fnc = ctx.ast.fn(checklocales.PM, "check_locales_inner")
+    bad2 = [(order, sup, res, log, want) for (order, sup, res, log, want) in rows2 if res != absint.C("Ok", absint.A("DEFAULT-KEYS")) or log != want]
+    if fnc is None:
         r.missing("check_locales_inner")
+    elif not bad2:
+        r.inst("check_locales_inner", "default locale = first element (make_builder_keys, never merged, no diagnostics); every other locale is merged once, against the default locale's keys", cfg=cfg)
+        r.inst("check_locales_inner#implicit-unless-inherits", "a locale without an `inherits` entry is merged with DefaultTo::Implicit(default) (so its absent keys are reported) in all %d orders - independently of the locales processed before it" % (len(rows2) // 2), cfg=cfg)
     else:
-        merges = M.call_blocks(cl, r"locale::Locale::merge$")
-        nexts = M.call_blocks(cl, r"slice::IterMut<'a, T> as std::iter::Iterator>::next$")
-        mbk = M.call_blocks(cl, r"locale::Locale::make_builder_keys$")
-        ok = len(merges) == 1 and len(nexts) >= 2 and len(mbk) == 1
-        if ok:
-            # the first next() (default locale) dominates make_builder_keys; merge is inside the loop over the remaining iterator
-            first = min(nexts)
-            lp = M.loop_of(cl, merges[0])
-            ok = cl.dominates(first, mbk[0]) and lp is not None and first not in lp[1] and mbk[0] not in lp[1]
-            # same iterator object
-        if ok:
-            r.inst("check_locales_inner", "default locale = first element (make_builder_keys, no diagnostics); Locale::merge only in the loop over the remaining locales", cfg=cfg)
-        else:
-            r.viol("R2:check_locales_inner#default-not-merged", "cannot show that Locale::merge is applied to the non-default locales only", file=cl.file, line=cl.line)
+        order, sup, res, log, want = bad2[0]
+        r.viol("R2:check_locales_inner#default-not-merged", "with locales [en, %s], inherits {fr-CA: fr}, suppress_key_warnings=%s: %s; expected %s" % (
+            ", ".join(order), sup, checklocales.describe(log) if not isinstance(res, str) else res, checklocales.describe(want)), file=fnc.file, line=fnc.line)
     # callers of Locale::merge
     callers = sorted({bb.name for (bb, i, t) in prog.callers_of(r"locale::Locale::merge$")})
     want = ["leptos_i18n_parser::parse_locales::check_locales_inner", "leptos_i18n_parser::parse_locales::parsed_value::ParsedValue::merge"]
